@@ -4,7 +4,7 @@
    wmean_def ps = sum(w x)/sum(w), repeat_by_weights (Spec/Sample.v).  The model describes the
    repaired code (D4: the weighted Mean/GeoMean skip zero weights). *)
 From MM Require Import Base.Num Base.GASort Model.Stream Proofs.Stream Model.Sample Spec.Sample Proofs.Sample.
-From MM Require Import Check.C09 Proofs.CheckC09 Proofs.GeoMeanBracket Proofs.CheckC09Log Proofs.CheckC09Hist Proofs.CheckC09HistVal Proofs.C09Extra.
+From MM Require Import Check.C09 Proofs.CheckC09 Proofs.GeoMeanBracket Proofs.CheckC09Log Proofs.CheckC09Hist Proofs.CheckC09HistVal Proofs.CheckC09HistAll Proofs.C09Extra.
 From Coq Require Import Permutation Sorted.
 Local Open Scope Q_scope.
 
@@ -371,7 +371,8 @@ Proof. exact (conj logspace_024 logspace_024_ok). Qed.
    pairs are a permutation (up to ==) of those last seen, every other sample is unchanged; after Copy i the dump is the last
    one plus a copy of sample i; after a direct write the dump is the last one with that one value replaced and the flag
    cleared; every Query is correct (query_obs_ok: definitions of Spec level only) for a legal Sample whose lists are == the
-   last dump of that sample.  Without direct writes: (obs_multiset_ok) EVERY sample of EVERY dump consists of the pairs of
+   last dump of that sample - and therefore (obs_hist_fresh_ok, ANY history, direct writes included) correct in terms of the
+   Xs and Weights of that sample AS LAST DUMPED (query_fresh_ok c; c is a legal Sample).  Without direct writes: (obs_multiset_ok) EVERY sample of EVERY dump consists of the pairs of
    the ORIGINAL sample up to order, is weighted iff the original is, and is ascending when flagged; and (obs_fresh_ok)
    every Query equals the fresh computation ON THE ORIGINAL SAMPLE within tolerance: query_fresh_ok s0 mentions only
    the Xs and Weights of the original sample s0 (no arrangement, no flag, no model store): Mean within tol_mean / tol_wmean of
@@ -382,18 +383,20 @@ Proof. exact (conj logspace_024 logspace_024_ok). Qed.
 Theorem C09_history_observed_sound : forall sorted hasw xs ws ops c tag pos diag,
   check_case (KHist sorted hasw xs ws ops) = verdict c tag pos diag -> (c = 0 \/ c = 1)%Z ->
   let s0 := mkSample xs (ows hasw ws) sorted in
-  obs_hist_ok [s0] ops /\ (no_poke (map fst ops) -> obs_multiset_ok s0 ops /\ obs_fresh_ok s0 ops).
+  obs_hist_ok [s0] ops /\ obs_hist_fresh_ok [s0] ops /\
+  (no_poke (map fst ops) -> obs_multiset_ok s0 ops /\ obs_fresh_ok s0 ops).
 Proof. exact history_line_all. Qed.
 Print Assumptions C09_history_observed_sound.
 
 (* the steps: (1) whenever the model store is pointwise == to what was last observed, hist_ok gives obs_hist_ok;
    (2) without direct writes the multiset invariant; (3) a query correct for an arrangement of the original pairs is
-   correct in terms of the original sample *)
+   correct in terms of the original sample; (4) every Query restated on the last dump of the queried sample *)
 Theorem C09_history_observed_steps :
   (forall ops st cur, Forall swf st -> Forall2 sample_eqv st cur -> hist_ok st ops -> obs_hist_ok cur ops) /\
   (forall ops s0 cur, no_poke (map fst ops) -> Forall (inv s0) cur -> obs_hist_ok cur ops -> obs_multiset_ok s0 ops) /\
   (forall s0 s mst m sm w b1 b2 vst v, swf s0 -> swf s -> inv s0 s ->
-     query_obs_ok s mst m sm w b1 b2 vst v -> query_fresh_ok s0 mst m sm w b1 b2 vst v).
+     query_obs_ok s mst m sm w b1 b2 vst v -> query_fresh_ok s0 mst m sm w b1 b2 vst v) /\
+  (forall ops cur, obs_hist_ok cur ops -> obs_hist_fresh_ok cur ops).
 Proof. exact history_steps_all. Qed.
 Print Assumptions C09_history_observed_steps.
 Example C09_history_observed_example :
@@ -416,6 +419,16 @@ Example C09_check_examples :
   check_C09 C09_line_lin = verdict 0 256 (-1) [] /\      (* Linspace 0 1 5 *)
   check_C09 C09_line_sum = verdict 0 256 (-1) [].         (* vec.Sum 1 2 3.5 *)
 Proof. vm_compute. repeat split; reflexivity. Qed.
+(* the real history line above (Copy 0; Sort 1; Query 0; Poke 1 0 10; Query 1 - a direct write included) satisfies the
+   conclusion about the observed dumps *)
+Example C09_history_real_line : exists sorted hasw xs ws ops,
+  p_line C09_line_hist = Some (KHist sorted hasw xs ws ops, []) /\ ~ no_poke (map fst ops) /\
+  obs_hist_fresh_ok [mkSample xs (ows hasw ws) sorted] ops.
+Proof.
+  do 5 eexists. split; [vm_compute; reflexivity|]. split.
+  - intro NP. unfold no_poke in NP. cbn [map fst] in NP. do 3 apply Forall_inv_tail in NP. apply Forall_inv in NP. exact NP.
+  - eapply (check_hist_fresh_all _ _ _ _ _ 0%Z 3200%Z (-1)%Z []); [vm_compute; reflexivity|left; reflexivity].
+Qed.
 Example C09_lines_decode :
   Forall (fun l => exists cs, p_line l = Some (cs, [])) [C09_line_unw; C09_line_w; C09_line_hist; C09_line_lin; C09_line_sum].
 Proof. repeat constructor; vm_compute; eexists; reflexivity. Qed.
